@@ -404,8 +404,11 @@ def rand_mntm(rng: random.Random, max_states: int = 4, n_tapes: Optional[int] = 
         return tuple(rng.choice(tsy) if (i == 0 or rng.random() < 0.5) else blank for i in range(nt))
     table: Dict[Any, Dict[tuple, list]] = {}
     n_keys = rng.choice([2, 3, 4, 6]) * (1 if nt == 1 else 2)
+    sink_p = rng.choice([0.0, 0.0, 0.3, 0.6])  # non-final states without any row (explicit dead ends)
     for q in nonfinal:
         row: Dict[tuple, list] = {}
+        if q != init and rng.random() < sink_p:
+            continue
         for _ in range(n_keys if rng.random() < 0.8 else 1):
             key = rand_key()
             if deterministic:
@@ -436,3 +439,34 @@ def rand_input(rng: random.Random, m, max_len: int = 4) -> str:
     if not pool:
         return ""
     return "".join(rng.choice(pool) for _ in range(n))
+
+
+def tiny_nondet_tables(tape_syms: Sequence[str] = "0#") -> Iterator[Dict[str, Dict[str, list]]]:
+    """Nondeterministic one-tape tables over q0,q1 (+final qf): q0 has two distinct results on the
+    first tape symbol and optionally one of four results on the blank; q1 has no row (a dead end)
+    or one of three rows."""
+    results = [(q, s, d) for q in ("q0", "q1", "qf") for s in tape_syms for d in ("L", "R", "N")]
+    a, blank = tape_syms[0], tape_syms[-1]
+    second = [None, ("qf", blank, "N"), ("q1", a, "R"), ("q0", blank, "L")]
+    q1rows = [None, {blank: [("qf", blank, "N")]}, {a: [("q0", a, "L")]}]
+    for r1, r2 in itertools.combinations(results, 2):
+        for sec in second:
+            for q1 in q1rows:
+                t: Dict[str, Dict[str, list]] = {"q0": {a: [r1, r2]}}
+                if sec is not None:
+                    t["q0"][blank] = [sec]
+                if q1 is not None:
+                    t["q1"] = {k: list(v) for k, v in q1.items()}
+                yield t
+
+
+def ntm_from_lists(kw, table) -> NTM:
+    return NTM(transitions={q: {s: set(rs) for s, rs in row.items()} for q, row in table.items()}, **kw)
+
+
+def mntm1_from_lists(kw, table, swap: bool = False) -> MNTM:
+    def order(rs):
+        return list(reversed(rs)) if swap else list(rs)
+    return MNTM(n_tapes=1,
+                transitions={q: {(s,): [(r[0], ((r[1], r[2]),)) for r in order(rs)] for s, rs in row.items()}
+                             for q, row in table.items()}, **kw)
